@@ -295,6 +295,14 @@ def main():
 
     # 3./4. correspondence + oracle
     ok, out = go_build("./cmd/" + cfg["harness"], os.path.join(HARN, "bin", cfg["harness"]))
+    extras = []
+    for xs in cfg.get("extra_streams", []):
+        okx, outx = go_build("./cmd/" + xs["harness"], os.path.join(HARN, "bin", xs["harness"]))
+        oky, outy = lake_build([xs["exe"]]) if xs.get("exe") else (True, "")
+        if okx and oky:
+            extras.append(xs)
+        else:
+            broken.append(f"extra stream {xs['harness']} does not build: " + trunc(outx + outy, 600))
     lock.__exit__(None, None, None)
     runs = []
     if not ok:
@@ -321,6 +329,16 @@ def main():
                 futs.append((s, ex.submit(run_stream, pid, cfg, s, n, tier, wd), wd))
             for s, f, wd in futs:
                 runs.append((s, f.result(), wd))
+
+    # extra streams: other properties' harnesses whose oracle also restates a clause of this
+    # property (e.g. upload payloads for C01); only the listed violation kinds count here
+    extra_runs = []
+    if ok and not args.replay:
+        for xs in extras:
+            xcfg = dict(harness=xs["harness"], exe=xs.get("exe"), reset_prefixes=xs.get("reset_prefixes"))
+            n = xs.get("quick_n", 300) if tier == "quick" else xs.get("thorough_n", 3000)
+            wd = os.path.join(WORK, f"{pid}-x-{xs['harness']}-{tier}-{seed}")
+            extra_runs.append((xs, run_stream(pid, xcfg, seed, n, tier, wd), wd))
 
     # 5. decision
     kf = known_findings(pid)
@@ -369,6 +387,24 @@ def main():
                     known_hits.setdefault(hit[0], (hit[1], dict(kind=kind)))
                 else:
                     violations.append((kind, f"implementation `{trunc(impl, 300)}` vs independent model `{trunc(model, 300)}`", cops, s))
+
+    for xs, res, wd in extra_runs:
+        if res["error"]:
+            broken.append(f"extra stream {xs['harness']} failed: {trunc(res['error'], 400)}")
+            continue
+        rep = res["report"]
+        evaluations += rep.get("evaluations", 0)
+        lines += res["lines"]
+        notes.append(f"extra stream {xs['harness']}: {rep.get('evaluations', 0)} cases, {res['lines']} lines, kinds counted here: {xs.get('kinds')}")
+        for v in rep.get("violations") or []:
+            if not any(fnmatch.fnmatchcase(v["kind"], g) for g in xs.get("kinds", ["*"])):
+                continue
+            kind = xs["harness"] + ":" + v["kind"]
+            hit = next((k for k in kf if fnmatch.fnmatchcase(kind, k[0])), None)
+            if hit:
+                known_hits.setdefault(hit[0], (hit[1], v))
+            else:
+                violations.append((kind, v["detail"], v["ops"], seed))
 
     for k, (desc, v) in sorted(known_hits.items()):
         print(f"KNOWN-FINDING: property={pid} {k} {desc}")
